@@ -656,8 +656,84 @@ def r12(ctx):
     ctx.floor(R, 1)
 
 
+def r14(ctx):
+    R = "C07-R14"
+    ctx.rule(R, "what a sync takes out of the log it applies, and what it applies replaces what was durable: inside sync_file / "
+                "sync_file_data / sync_dir the pending log is only drained as a whole and re-assigned (no retain / remove / clear: a "
+                "record dropped there is neither rolled back nor made durable); in apply_op_to_persisted the SetLen arm resizes the "
+                "content to the recorded length (extends as well as cuts) and the Rename arm inserts the moved inode under the new "
+                "name unconditionally (replacing an inode that is already there)")
+    DROPS = re.compile(r"::(retain|retain_mut|remove|swap_remove|shift_remove|clear|truncate|pop|pop_front|pop_back|split_off|dedup|dedup_by|dedup_by_key)$")
+    n = 0
+    for name in ("sync_file", "sync_file_data", "sync_dir"):
+        if FS + name not in ctx.w.bodies:
+            continue
+        n += 1
+        bad = []
+        for fb in ctx.w.family(FS + name):
+            for bb, t in fb.calls(DROPS):
+                if t["args"] and FS + "pending" in _fields_of(fb, t["args"][0]):
+                    bad.append(t)
+        ctx.inst(R, f"{name}:log-only-drained", not bad, bad[0]["s"] if bad else ctx.w.bodies[FS + name].span,
+                 "the log leaves the function as the kept remainder of one drain" if not bad else
+                 f"Fs::{name} removes records from the pending log with `{bad[0]['f'].rsplit('::', 1)[1]}` without applying them: an unsynced write / truncate "
+                 "of a file that re-uses the name is silently discarded - the next sync_all returns Ok and the data is gone after a crash")
+    if ctx.strict and n < 3:
+        ctx.bad(R, "log-only-drained", "", f"only {n} of the three sync functions found: re-derive")
+    b = ctx.body(R, FS + "apply_op_to_persisted")
+    if not b:
+        return
+    main = None
+    for sbb, m, els, adt, pl in variant_edges(b, lambda p: True):
+        if adt == OP and len(m) >= 6:
+            main = m
+    if not main:
+        ctx.bad(R, "apply:arms", b.span, "cannot find the per-op match in apply_op_to_persisted")
+        return
+    e = main.get("SetLen")
+    if e:
+        rz = []
+        for bb, t in b.calls(re.compile(r"^std::vec::Vec::resize$")):
+            if b.dominated_by_edge(bb, e) and "field:turmoil_fs::FileData::content" in Slicer(ctx.w).atoms(b, t["args"][0]) and \
+                    "field:turmoil_fs::PendingOp::len" in Slicer(ctx.w).atoms(b, t["args"][1]):
+                rz.append(t)
+        ctx.inst(R, "apply:SetLen:resizes-to-recorded-length", bool(rz), b.term(e[1]).get("s", b.span), "a flushed SetLen sets the durable length (resize)" if rz else
+                 "the SetLen arm of apply_op_to_persisted does not resize the durable content to the recorded length: a synced set_len that extends the "
+                 "file is lost (the file snaps back to its old length after the sync / a crash)")
+    else:
+        ctx.bad(R, "apply:SetLen", b.span, "no SetLen arm in apply_op_to_persisted")
+    e = main.get("Rename")
+    if e:
+        MAPS = ("persisted_files", "persisted_dirs", "persisted_symlinks")
+        took = {}
+        for bb, t in b.calls(re.compile(r"^indexmap::IndexMap::(swap_remove|shift_remove|remove)$")):
+            if b.dominated_by_edge(bb, e):
+                for f in _fields_of(b, t["args"][0]):
+                    if f.startswith(FS) and f[len(FS):] in MAPS:
+                        took[f[len(FS):]] = t
+        put = set()
+        for bb, t in b.calls(re.compile(r"^indexmap::IndexMap::insert$")):
+            if b.dominated_by_edge(bb, e) and "field:turmoil_fs::PendingOp::to" in Slicer(ctx.w).atoms(b, t["args"][1]):
+                for f in _fields_of(b, t["args"][0]):
+                    if f.startswith(FS):
+                        put.add(f[len(FS):])
+        for mp in MAPS:
+            if mp not in took:
+                if ctx.strict:
+                    ctx.bad(R, f"apply:Rename:{mp}", b.span, f"the Rename arm does not take the inode out of {mp}: re-derive")
+                continue
+            ok = mp in put
+            ctx.inst(R, f"apply:Rename:{mp}:replaces-destination", ok, took[mp]["s"], "the moved inode is inserted under the new name (replacing what is there)" if ok else
+                     f"the Rename arm takes the inode out of Fs::{mp} but does not `insert` it under the new name unconditionally: renaming onto an existing durable "
+                     "file keeps the old inode - after sync_dir and a crash the destination holds the old bytes and the synced new contents exist under no name")
+    else:
+        ctx.bad(R, "apply:Rename", b.span, "no Rename arm in apply_op_to_persisted")
+    ctx.floor(R, 7)
+
+
 def run(ctx):
     from . import C10
+    r14(ctx)
     C10.r5(ctx)   # what reaches the log is what the caller asked for: a truncating open logs its SetLen(0) also for a file it just created
     r13(ctx)
     r12(ctx)
